@@ -9,6 +9,7 @@ THEOREMS = {
         "Dawgs.C04.Props.literal_pipeline", "Dawgs.C04.Props.builder_pipeline", "Dawgs.C04.Props.like_escape_literal",
         "Dawgs.C04.Props.key_unescape_escape", "Dawgs.C04.Props.jsonb_key_quoting", "Dawgs.C04.Props.nested_sql_param_bound",
         "Dawgs.C04.Props.interval_literal", "Dawgs.C04.Props.comment_header_all_lines_commented", "Dawgs.C04.Props.comment_header_invisible",
+        "Dawgs.C04.Props.statement_tokens", "Dawgs.C04.Props.statement_twin_tokens",
         "Dawgs.C04.Props.number_token_exact_value", "Dawgs.C04.Props.number_literal_value_round_trip", "Dawgs.C04.Props.integer_literal_value",
         "Dawgs.C04.Props.identifier_quoted", "Dawgs.C04.Props.identifier_bare", "Dawgs.C04.Props.identifier_partial",
         "Dawgs.C04.Props.identifier_fixed", "Dawgs.C04.Props.identifier_case_folded", "Dawgs.C04.Props.identifier_quote_all",
@@ -28,6 +29,74 @@ THEOREMS = {
     ],
 }
 
+
+
+# clause of the statement (properties.jsonl C04) -> what establishes it. "for all" = a Lean theorem over every string / name /
+# digit string, no length bound; hypotheses are named.
+CLAUSES = {
+    "string literals reach PostgreSQL as ONE correctly delimited string literal":
+        "pgQuote_single_token, pgQuote_in_context (for all NUL-free strings; hypotheses: the text before leaves the lexer in no open token [Clean], the text "
+        "after does not re-open the constant [contQuote = false: no quote, no newline-white-space-then-quote], standard_conforming_strings = on); "
+        "literal_pipeline, builder_pipeline (Cypher token -> decode -> quote -> lexer); interval_literal (duration); statement_tokens (any number of "
+        "positions in one statement, hypothesis wfSegs about the formatter's own text); T-tie format_write_sites_covered / format_helpers_in_place: "
+        "the quote-doubling write of formatValue is the only way a string value is written",
+    "property keys and map keys":
+        "key_unescape_escape (UnescapePropertyKeyName inverts the back-tick form, for all names); jsonb_key_quoting (one string constant after ->, ->>, ?, "
+        "jsonb_build_object(, ', ', array [ ; same hypotheses as pgQuote_in_context); that keys become pgsql.Literal values: rows of translate_sites_classified "
+        "(literal constructions are written by formatValue) + tie",
+    "parameter values that are inlined":
+        "same formatValue: pgQuote_in_context; nested_sql_param_bound (inner statement with a materialised value: one constant, token structure independent "
+        "of the value; hypotheses Clean / contQuote on both levels, NUL-free inner text); numbers: number_token_exact_value, integer_literal_value; "
+        "entry_options_exercised (MaterializeParameters run under both values) ",
+    "bound parameters":
+        "T-tie rows esc=bound (translate_sites_classified, user_text_rows_escaped): the value goes into Result.Parameters, the SQL text carries @pN only; "
+        "tie: SQL text identical to the benign twin's and the parameter map carries exactly the supplied value; pgx's NamedArgs count = @name tokens (searched)",
+    "kind names":
+        "tie only: kinds are mapped to int2 ids by the kind mapper before they reach the SQL AST (literal rows kindIDs -> numbers; measured: 'ok unreached' for every "
+        "hostile kind name); no theorem about the mapper (trusted: a registered kind yields an integer)",
+    "variable names and result aliases reach PostgreSQL as ONE correctly quoted identifier":
+        "identifier_fixed (for every name, bare or back-ticked, exactly one identifier token carrying the name; hypotheses Clean before, formatter's ' from …' or "
+        "nothing after), identifier_quoted (back-ticked: any NUL-free name, contDQ after), identifier_bare / identifier_partial (bare: identFollow after), "
+        "statement_tokens; generated names: C06 generated_names_never_user_keyed + rows esc=generated / lookup-key; T-tie format_write_sites_covered "
+        "(formatIdentifier is the only identifier write; five verbatim writes exempt with reasons), symbols_never_rewritten",
+    "token sequence outside those positions = the benign twin's":
+        "statement_tokens + statement_twin_tokens (for any number of positions: same formatter tokens in the same places, one token per position; hypothesis "
+        "wfSegs), pgQuote_shape_independent, nested_sql_param_bound; for the real statements: the twin comparison of suite c04 on every case (searched)",
+    "value read back = value denoted, strings":
+        "pgQuote_single_token gives back exactly s; decode_encode, decode_correct, decode_total_or_error (decoder = independent denotation, all tokens); "
+        "like_escape_literal (LIKE operands); REFUTED INSTANCES (known findings): regex operand LIKE-escaped (C04:regex_operand:like-escaped-value), LIKE operand "
+        "under a function left unescaped (C04:like_operand.function_lhs:unescaped-like-pattern) — named rows of known_findings_are_rows, facts like_guards",
+    "value read back = value denoted, identifiers":
+        "identifier_quoted (back-ticked names: exact); bare names with upper-case letters are case-folded by the server: identifier_case_folded / c04_full_refuted "
+        "(REFUTED INSTANCES, six known findings *:case-folded-identifier at projection.alias, projection.variable, count_fast_path.alias, "
+        "aggregate_traversal_count.alias, builder.v2.alias, builder.v2.scope); exact for an emitter quoting every identifier: identifier_quote_all / c04_fixed",
+    "value read back = value denoted, numbers":
+        "number_token_exact_value (digits/decimal point -> one number token -> exact value, for all digit strings), integer_literal_value, "
+        "number_literal_value_round_trip (UNDER the named assumption GoShortestRoundTrips64); format_number_calls (FormatFloat(v,'f',-1,64) and base 10 at every call "
+        "site, regenerated); signs: twin only (searched)",
+    "SQL fragments passed as text to the traversal functions":
+        "nested_sql_param_bound (both mechanisms: bound parameter and re-quoted literal); rows kind=nested / param (formattedQuery -> bound) of "
+        "translate_sites_classified; tie: nested SQL is lexed and compared recursively in suite c04",
+    "the Cypher debug comment header (translate.FromCypher)":
+        "comment_header_all_lines_commented, comment_header_invisible (for all NUL-free texts and both values of stripLiterals); tie: the real FromCypher text must "
+        "equal commentHeader(real emitter text) ++ statement, under both option values (entry_options_exercised)",
+    "builder entry points (names that do not pass the Cypher lexer)":
+        "guard_ascii_table, builder_accepts_bare, builder_name_one_token (a name validateCypherSymbol accepts is one identifier token; the guard's rune classes are "
+        "regenerated), guard_calls_in_place, unguarded_rows_named, outside_rows_no_finding; tie: every name-/value-taking function of query/v2 and query in suite c04",
+    "the decoder rejects what denotes nothing": "decode_total_or_error, decode_correct",
+    "refuted for the emitter before the F9 repair (12ac17c)": "identifier_verbatim_unsafe_old, c04_partial_old_refuted (the four *:unquoted-identifier entries are status fixed)",
+    "searched only (tie)":
+        "that the Lean transcriptions ARE the Go functions: suite c04q compares formatValue, formatIdentifier, NewStringLiteral, decodeCypherStringLiteral (through "
+        "Translate), UnescapePropertyKeyName and Go's ParseFloat with the Lean functions on every generated string / decimal text (exact equality); that the "
+        "translator puts user text ONLY into the modelled positions with clean surrounding text (wfSegs / Clean / contQuote hold for what the formatter really "
+        "writes): suite c04, ~130 position templates x hostile strings x encodings x every boolean option, judged by the proved lexer against a benign twin; kind "
+        "names -> ids; bound parameter values unchanged; pgx NamedArgs agreement; the lexer's fidelity to scan.l; signs of numbers; the extractor goext c04",
+    "named assumptions":
+        "standard_conforming_strings = on at the server (default since 9.1; DAWGS neither sets nor checks it; pgQuote_needs_scs_on shows the quoting is unsafe with off); "
+        "GoShortestRoundTrips64 (strconv's shortest digits at 64 bits round back to the double — hypothesis of number_literal_value_round_trip); user text is NUL-free "
+        "(the property's quantifier; the code passes NUL through, measured); valid UTF-8; outside the quantifier (observation only): identity property names of the pg "
+        "driver's update batches, schema index/constraint names",
+}
 
 def do_regen(ctx):
     regen.c04_sites()
@@ -102,7 +171,11 @@ def extra_coverage(ctx, stats):
                                               "why_outside": "driver batch API argument (graph.NodeUpdate / RelationshipUpdate IdentityProperties), not a position of an accepted query"})
                 o["count"] += 1
     return {"per_site": sites, "sites_reaching_sql_text": reached, "sites_never_reaching_sql_text": renamed,
-            "observations": {"outside_quantifier": sorted(outside.values(), key=lambda o: o["site"])}}
+            "observations": {"outside_quantifier": sorted(outside.values(), key=lambda o: o["site"])},
+            "clause_map": CLAUSES,
+            "full_statement": "def C04_full (Props/C04.lean) = ValuesSafe ∧ IdentOneToken emitIdent identValue: refuted by case folding (c04_full_refuted); "
+                              "C04_partial (c04_partial) holds for the code as it is; C04_fixed (c04_fixed) for an emitter quoting every identifier",
+            "stated_goals_not_proved": ["kind names -> ids (tie only)", "strconv shortest-digits property (named assumption)", "signs of numbers (twin only)"]}
 
 
 SPEC = {
@@ -163,25 +236,34 @@ SPEC = {
     ],
     "explanation": "Values (literals, keys, inlined parameters, nested SQL) are proved for all strings; the tie runs the real translator on hostile/benign twins per "
                    "position and the proved lexer judges the emitted text. The model's identifier emitter is format.go formatIdentifier (F9 repair); on a tree without that repair "
-                   "the tie reports the unquoted-identifier shapes as violations and the c04q differential disagrees on back-ticked symbols.",
+                   "the tie reports the unquoted-identifier shapes as violations and the c04q differential disagrees on back-ticked symbols. Clause by clause: coverage.clause_map.",
 }
 
 MANIFEST = {
     "category": "proof",
-    "technique": "Lean 4 theorems over all strings about a PostgreSQL lexer model and the transcribed quoting/decoding functions + differential tie of those functions + "
-                 "per-position hostile/benign twin translation judged by the proved lexer",
-    "text": "Theorems for every NUL-free string, no length bound: the text formatValue writes lexes as exactly one string constant whose value is the string "
-            "(pgQuote_single_token, in any clean context, token structure independent of the value); decodeCypherStringLiteral decodes exactly the tokens that denote "
-            "a string and inverts NewStringLiteral; property/map keys in the ->, ->>, ?, jsonb_build_object and array positions are single constants; SQL handed to the "
-            "traversal functions (bound parameter and re-quoted literal) keeps its token structure whatever the inner value. Identifiers: formatIdentifier writes a back-ticked "
-            "symbol as a quoted identifier and a bare symbol verbatim, which is exactly one identifier token for every name (identifier_fixed); the verbatim emitter the code "
-            "had before is refuted by the F9 witness (identifier_verbatim_unsafe_old); exact read-back of the name fails only by case folding of unquoted names "
-            "(identifier_case_folded) and holds for an emitter quoting every identifier. The tie compares the Lean functions with the real ones on every generated string and "
-            "runs the real translator on ~115 position templates x hostile strings.",
+    "technique": "Lean 4 theorems over all strings / names / digit strings about a PostgreSQL lexer model and the transcribed quoting, decoding, identifier and number "
+                 "formatting functions; regenerated site tables (formatter writes, translator construction sites, builder entry points, options, number calls) checked by "
+                 "the kernel; differential tie of every transcribed function; per-position hostile/benign twin translation judged by the proved lexer",
+    "text": "Proved for ALL inputs (no length bound), each with the hypotheses named here. Strings: for every NUL-free string, the text formatValue writes is exactly one string "
+            "constant whose value is the string, provided the formatter's text before it leaves the lexer in no open token and the text after it does not re-open the "
+            "constant, and the server runs with standard_conforming_strings = on (pgQuote_single_token / pgQuote_in_context; pgQuote_needs_scs_on shows the last hypothesis "
+            "is needed); the Cypher literal decoder accepts exactly the tokens that denote a string and inverts NewStringLiteral; property / map keys are single constants in "
+            "every position the formatter writes them; inner SQL handed to the traversal functions (bound parameter and re-quoted literal) keeps its token structure whatever "
+            "the inner value. Identifiers: formatIdentifier writes a back-ticked symbol as a quoted identifier (exact name, any NUL-free name) and a bare symbol verbatim, "
+            "exactly one identifier token for every name (identifier_fixed); names accepted by the query/v2 builder's symbol guard are bare names "
+            "(builder_name_one_token, guard classes regenerated). A whole statement with any number of user positions has the formatter's own tokens plus exactly one "
+            "token per position, so it differs from its benign twin only in those values (statement_tokens, statement_twin_tokens; hypothesis wfSegs about the formatter's "
+            "text). The debug comment header of FromCypher is invisible to the lexer for every text and both values of stripLiterals. Numbers: the text written for "
+            "digits/decimal point is one number token whose exact value is those digits; that a double reads back as itself additionally ASSUMES strconv's shortest-digits "
+            "property at 64 bits (GoShortestRoundTrips64), with bitSize 64 at every call site as a regenerated fact. NOT proved, refuted by witness and listed as the eight "
+            "known findings: exact read-back of unquoted names with upper-case letters (six sites), LIKE escaping applied to regex operands, LIKE operands under a "
+            "function left unescaped. Tie only: kind names become integer ids; bound parameter values; that the translator's surrounding text satisfies the theorems' "
+            "hypotheses (checked on ~130 position templates x hostile strings x every boolean option by the twin comparison). See coverage.clause_map.",
     "note": "Trusted: Lean kernel, the lexer's fidelity to scan.l (simplifications listed in the evidence), pgx's NamedArgs rewriter (count checked per case), the syntactic "
-            "extractor goext c04. T-tie: every Write argument of the formatter and every identifier/alias/LIKE/nested-SQL/parameter/column-list construction site of the "
-            "translator is regenerated per run and must be covered by a modelled quoting function, an exempt row with its reason, or a named known finding. "
-            "Observation (outside the quantifier, not a finding): drivers/pg/query formatConflictMatcher writes the identity property names of node/relationship update batches "
-            "between apostrophes without quote doubling — driver batch API, not query text; recorded in the evidence (observations.outside_quantifier) with a replay. "
-            "Known findings: case folding of unquoted aliases/variables at six sites (four translator sites, query/v2 aliases and scope aliases), LIKE escaping applied to regex operands, LIKE operands not escaped under a function.",
+            "extractor goext c04. Named assumptions: standard_conforming_strings = on; GoShortestRoundTrips64; NUL-free valid UTF-8 user text. T-tie: every Write argument of "
+            "the formatter, every identifier/alias/LIKE/nested-SQL/parameter/column-list construction site, every builder entry point with its guard, every option parameter "
+            "and every number-formatting call is regenerated per run and must be covered by a modelled function, an exempt row with its reason, or a named known finding. "
+            "The four unquoted-identifier findings (F9) are fixed in 12ac17c; the model's emitter is the repaired one and the old emitter's refutation is kept (…_old). "
+            "Observation (outside the quantifier, not a finding): drivers/pg/query formatConflictMatcher writes the identity property names of update batches between "
+            "apostrophes without quote doubling — driver batch API, not query text; recorded in observations.outside_quantifier with a replay.",
 }
